@@ -44,6 +44,14 @@ type c02Scn struct {
 	// "other" = it writes another table, "same" = it shares the table of the integration under test. The old chain
 	// then has 2*batch blocks (two positions of the integration under test), the last two are replaced.
 	Sib string `json:"sib,omitempty"`
+	// reorg whose positions are NOT aligned to the batch size: the old chain (Old blocks) was indexed while the head
+	// stood at Pre and then at Old, so the last position covers only blocks Pre+1..Old although batch > that; blocks
+	// Fork+1..Old are replaced by blocks with another transaction/log layout (their rows have other keys than the
+	// orphaned rows) and the new chain has New blocks, so the position recorded after the reorg has another number
+	// than the orphaned one.
+	Pre uint64 `json:"pre,omitempty"`
+	Old uint64 `json:"old,omitempty"`
+	New uint64 `json:"new,omitempty"`
 	// the enumeration of one scenario is split into Parts disjoint slices: slice Part holds the executions
 	// whose FIRST fault hits an I/O point with ordinal = Part (mod Parts)
 	Part  int `json:"part"`
@@ -55,6 +63,9 @@ func (s c02Scn) name() string {
 	case "reorg":
 		if s.Sib != "" {
 			return fmt.Sprintf("reorg:%s:fork%d:b%dc%d:sibling-%s-table", s.Shape, s.Fork, s.Batch, s.Conc, s.Sib)
+		}
+		if s.Pre > 0 {
+			return fmt.Sprintf("reorg:%s:fork%d:b%dc%d:heads-%d-%d-then-%d-other-layout", s.Shape, s.Fork, s.Batch, s.Conc, s.Pre, s.Old, s.New)
 		}
 		return fmt.Sprintf("reorg:%s:fork%d:b%dc%d", s.Shape, s.Fork, s.Batch, s.Conc)
 	case "dep":
@@ -69,6 +80,9 @@ func (s c02Scn) class() string {
 	case "reorg":
 		if s.Sib != "" {
 			return "reorg-with-sibling:" + s.Shape
+		}
+		if s.Pre > 0 {
+			return "reorg-unaligned-other-layout:" + s.Shape
 		}
 		return "reorg:" + s.Shape
 	case "dep":
@@ -87,7 +101,7 @@ func init() {
 		ID:        "C02",
 		Level:     "fault_enumeration",
 		Technique: "exhaustive fault enumeration on the real pipeline (instrumented code under the controlled scheduler, fake Postgres, simulated node): every I/O operation of the steps x every fault kind x process death, singly and in pairs; invariant checked in every committed state; differential check of the state after retry against the fault-free run",
-		Rule: "scenarios = growth-only steps for shapes L1 (headers+logs), L2 (logs), T1 (blocks), R1 (blocks+receipts) x (batch,conc) in {1,3}x{1,2}; a step that detects a reorg (3 blocks indexed, then the last 1 or 2 replaced and one appended) for L1 and T1; the same after a position that covers 2 or 3 blocks, alone and with a sibling integration of the same source (other table, same table) that sits at the head; a step of a dependent integration with reference look-ups (R indexed first). " +
+		Rule: "scenarios = growth-only steps for shapes L1 (headers+logs), L2 (logs), T1 (blocks), R1 (blocks+receipts) x (batch,conc) in {1,3}x{1,2}; a step that detects a reorg (3 blocks indexed, then the last 1 or 2 replaced and one appended) for L1 and T1; the same after a position that covers 2 or 3 blocks, with positions that are not aligned to the batch size and replacement blocks whose logs sit at other transaction/log indexes, alone and with a sibling integration of the same source (other table, same table) that sits at the head; a step of a dependent integration with reference look-ups (R indexed first). " +
 			"Per scenario: every I/O point after the set-up (each SQL batch incl. begin/commit/COPY/copydone, each JSON-RPC exchange) x {SQL error, SQL connection drop | rpc error, transport error, HTTP 500, truncated body} and process death (all connections dropped, tasks and clients discarded, re-created by loadTasks); quick: every single fault, and every pair on the batch=1 conc=1 scenarios of L1 and T1 (growth, and reorg of the last block); thorough: every pair. " +
 			"After every step (failed or not) the code under test must hold nothing: no database session inside a transaction and no acquired pool connection; at the end the pool must close. " +
 			"An execution is non-trivial when at least one fault or death was injected.",
@@ -141,6 +155,21 @@ func c02Scenarios(thorough bool) []c02Scn {
 			out = append(out, c02Scn{Kind: "reorg", Shape: "L1", Batch: b, Conc: 1, Fork: uint64(2*b - 2), NF: nfs, Sib: sib})
 		}
 	}
+	// ... and the orphaned position is not aligned to the batch size while the replacement blocks have another
+	// transaction/log layout: neither the position's nor the rows' unique index can stand in for a lost roll-back
+	for _, v := range []c02Scn{
+		{Batch: 3, Pre: 1, Old: 3, Fork: 1, New: 5}, // two blocks unwound (2,3), re-indexed as 2',3',4' -> position 4
+		{Batch: 2, Pre: 2, Old: 3, Fork: 2, New: 5}, // one block unwound (3), re-indexed as 3',4' -> position 4
+		{Batch: 3, Pre: 2, Old: 4, Fork: 2, New: 6}, // two blocks unwound (3,4), re-indexed as 3',4',5' -> position 5
+	} {
+		for _, c := range []int{1, 2} {
+			v.Kind, v.Shape, v.Conc, v.NF = "reorg", "L1", c, 1
+			if thorough {
+				v.NF = 2
+			}
+			out = append(out, v)
+		}
+	}
 	for _, bc := range [][2]int{{1, 1}, {3, 2}} {
 		out = append(out, c02Scn{Kind: "dep", Batch: bc[0], Conc: bc[1], NF: nf("dep", bc[0], bc[1], 0)})
 	}
@@ -174,7 +203,8 @@ type c02Prep struct {
 	pairs    []c02Pair // integration under test LAST
 	versions []*simeth.Chain
 	final    *simeth.Chain
-	test     string // integration under test
+	test     string        // integration under test
+	pre      *simeth.Chain // reorg with unaligned positions: the chain the node serves first
 	// reference (fault-free) run
 	refFinal string              // canonical final state
 	want     map[string][]string // rendered projection per (integration, chain version, position, size of the referenced table)
@@ -221,12 +251,26 @@ func c02Prepare(s c02Scn) (*c02Prep, error) {
 			decls = append(decls, d2)
 			p.pairs = []c02Pair{{"ig2", d2, tbl}, {"ig1", d, "t1"}}
 		}
+		newLen := oldLen + 1
+		if s.Pre > 0 {
+			oldLen, newLen = s.Old, s.New
+		}
 		old := buildChain(acWord(int(oldLen)), d, 1)
-		// replacement blocks: other content (salt 2 seeds), one block more than the old chain
-		n := int(oldLen - s.Fork + 1)
-		repl := specsOf(acWord(int(oldLen) + 1)[s.Fork:s.Fork+uint64(n)], d, 2, int(s.Fork)+1)
+		// replacement blocks: other content (salt 2 seeds), the new chain is longer than the old one
+		word := []byte(acWord(int(newLen))[s.Fork:])
+		if s.Pre > 0 {
+			for i := range word {
+				if s.Fork+uint64(i)+1 <= oldLen {
+					word[i] = 'z' // a replaced height: the matching log sits in another place of the block
+				}
+			}
+		}
+		repl := specsOf(string(word), d, 2, int(s.Fork)+1)
 		nw := old.Reorg(s.Fork, repl, 2)
 		p.versions, p.final = []*simeth.Chain{old, nw}, nw
+		if s.Pre > 0 {
+			p.pre = old.Truncate(s.Pre)
+		}
 	case "dep":
 		r := shape("L1", "igr", "tr", src)
 		d := &world.Decl{Name: "igd", Table: "td", Event: "Ping", Sources: []world.SrcRef{src},
@@ -390,6 +434,9 @@ func c02SQLLabel(b simpg.Batch) string {
 func c02Exec(p *c02Prep, ch vrt.Chooser, reference, trace bool) (res c02Result) {
 	s := p.scn
 	chain0 := p.versions[0]
+	if p.pre != nil {
+		chain0 = p.pre
+	}
 	w := world.New(ch, world.Cfg{Snap: p.snap, Chains: map[string]*simeth.Chain{"node1": chain0}})
 	w.V.TraceOn = trace
 	res.counts = map[string]int64{}
@@ -638,6 +685,13 @@ func c02Exec(p *c02Prep, ch vrt.Chooser, reference, trace bool) (res c02Result) 
 			}
 			if !runTo(task, p.test, chain0.Head().Num) {
 				return
+			}
+			if p.pre != nil { // the head moves on and is indexed by a second, shorter position
+				w.Node("node1").SetChain(p.versions[0])
+				w.V.Bump()
+				if !runTo(task, p.test, p.versions[0].Head().Num) {
+					return
+				}
 			}
 			w.Node("node1").SetChain(p.final)
 			w.V.Bump()
